@@ -1,5 +1,6 @@
 import Claripy.VSA.Conc
 import ClaripyProofs.Lemmas.VSA.AddSub
+import ClaripyProofs.Lemmas.VSA.Lub
 /-!
 # C22 — joins, meets, widening and queries agree with the members
 
@@ -30,6 +31,30 @@ theorem C22_top_mem (w x : Nat) : (SI.top w).mem x ↔ x < 2 ^ w := mem_top w x
 theorem C22_new_mem (b s : Nat) (l u : Int) (x : Nat) :
     (SI.new b s l u).mem x ↔ x < 2 ^ b ∧ cd (2 ^ b) (imod l b) x ≤ cd (2 ^ b) (imod l b) (imod u b) ∧
       (if s = 0 then cd (2 ^ b) (imod l b) x = 0 else cd (2 ^ b) (imod l b) x % s = 0) := mem_new b s l u x
+
+/-! ## joins: `pseudo_join`, `least_upper_bound`, `union` contain their operands (all widths) -/
+
+/-- `pseudo_join(a, b, smart_join)` is well formed, keeps the width and contains both operands — for both settings
+of `smart_join`, wrapping or not, aligned or not -/
+theorem C22_pseudo_join_sup (w : Nat) (a b : SI) (smart : Bool) (ha : a.WF ∧ a.bits = w) (hb : b.WF ∧ b.bits = w) :
+    ((pseudoJoin a b smart).WF ∧ (pseudoJoin a b smart).bits = w) ∧
+      ∀ x, (a.mem x ∨ b.mem x) → (pseudoJoin a b smart).mem x :=
+  pseudoJoin_ok w a b ha hb smart
+
+/-- `least_upper_bound(*intervals)` (one, two or more arguments: sorted, every rotation joined in order, the candidate
+with the fewest values picked) contains every argument -/
+theorem C22_lub_sup (w : Nat) (l : List SI) (r : SI) (hP : ∀ s, s ∈ l → s.WF ∧ s.bits = w)
+    (h : leastUpperBound l = .ok r) : (r.WF ∧ r.bits = w) ∧ ∀ x, memL l x → r.mem x :=
+  lub_sup w l r hP h
+
+/-- `union` contains both operands: `JoinSound` without any guard -/
+theorem C22_union_sup : JoinSound SI.union noGuard := by
+  intro a b r x ha hb hbits _ hx h
+  exact (union_sup a.bits a b r ⟨ha, rfl⟩ ⟨hb, hbits.symm⟩ h).2 x hx
+
+/-- non-vacuity: a wrapping and a non-wrapping operand -/
+example : (SI.new 4 3 14 4).WF ∧ (SI.new 4 2 5 9).WF ∧ (SI.new 4 3 14 4).mem 1 ∧
+    SI.union (SI.new 4 3 14 4) (SI.new 4 2 5 9) = .ok (SI.new 4 1 14 9) := by decide
 
 /-! ## widen — false on the code (findings C22-widen-lower, -wrap, -upper, -unaligned) -/
 
